@@ -188,27 +188,39 @@ class FeatureStructure:
                     current_dereferenced.content[feature] = FeatureStructure()
                 current_dereferenced.content[feature].unify(other_dereferenced.content[feature])
 
-    def subsumes(self, other: "FeatureStructure"):
+    def subsumes(self, other: "FeatureStructure", already_seen=None):
         """Check whether the current feature structure subsumes another one.
 
         Parameters
         ----------
         other : :class:`~pyformlang.fcfg.FeatureStructure`
             The other feature structure to unify.
+        already_seen : dict
+            The parts of the current structure already compared, with the \
+            part of the other structure they were compared to. For internal \
+            usage.
 
         Returns
         ----------
         subsumes : bool
             Whether the current feature structure subsumes the one.
         """
+        if already_seen is None:
+            already_seen = {}
         current_dereferenced = self.get_dereferenced()
         other_dereferenced = other.get_dereferenced()
+        if current_dereferenced in already_seen:
+            # What is shared in the current structure has to be shared in
+            # the other one
+            return already_seen[current_dereferenced] is other_dereferenced
+        already_seen[current_dereferenced] = other_dereferenced
         if current_dereferenced.value != other_dereferenced.value:
             return False
         for feature in current_dereferenced.content:
             if feature not in other_dereferenced.content:
                 return False
-            if not current_dereferenced.content[feature].subsumes(other_dereferenced.content[feature]):
+            if not current_dereferenced.content[feature].subsumes(
+                    other_dereferenced.content[feature], already_seen):
                 return False
         return True
 
